@@ -14,6 +14,7 @@ package main
 import (
 	"fmt"
 	"os"
+	"reflect"
 	"path/filepath"
 	"runtime"
 	"sort"
@@ -22,6 +23,7 @@ import (
 	"sync"
 	"time"
 
+	fra "github.com/craterdog/go-collection-framework/v4"
 	col "github.com/craterdog/go-collection-framework/v4/collection"
 )
 
@@ -40,13 +42,16 @@ type ccall struct {
 }
 
 type cthread struct {
-	kind  string // client, consumer, fork, split, join
+	kind  string // client, consumer, fork, split, join, ctor (a constructor from n initial values, then size and array)
+	form  string // ctor: array, seq, module, parse
+	n     int    // ctor: number of initial values
 	calls []ccall
 	q     int   // consumer: queue; fork/split: input; join: output
 	qs    []int // fork/split: outputs; join: inputs
 }
 
 type cprog struct {
+	capExpr []string // optional: Coq expressions for the capacities (constructors: derived from Params.v)
 	caps    []int
 	wg      int
 	threads []cthread // helpers first (in creation order), then clients
@@ -93,6 +98,13 @@ func (t cthread) gallina() string {
 			cs[i] = c.gallina()
 		}
 		return "client [" + strings.Join(cs, "; ") + "]"
+	case "ctor":
+		cs := make([]string, 0, t.n+2)
+		for i := 1; i <= t.n; i++ {
+			cs = append(cs, fmt.Sprintf("CAdd 0 %d", i))
+		}
+		cs = append(cs, "CGetSize 0", "CAsArray 0")
+		return "client [" + strings.Join(cs, "; ") + "]"
 	case "consumer":
 		return fmt.Sprintf("consumer %d", t.q)
 	case "fork":
@@ -119,6 +131,8 @@ func (t cthread) human() string {
 			}
 		}
 		return "client{" + strings.Join(cs, " ") + "}"
+	case "ctor":
+		return fmt.Sprintf("client{q0 := Queue constructor form=%s with %d initial values; size(q0) array(q0)}", t.form, t.n)
 	case "consumer":
 		return fmt.Sprintf("consumer-until-closed(q%d)", t.q)
 	default:
@@ -140,8 +154,15 @@ type sthread struct {
 	state   int
 	kind    int
 	q       int
+	qobj    anyQueue
 	grant   chan bool
 	results []string
+}
+
+// what the scheduler needs from a queue of any element type
+type anyQueue interface {
+	GetSize() int
+	GetCapacity() uint
 }
 
 type csched struct {
@@ -151,9 +172,9 @@ type csched struct {
 	byGoid    map[int64]*sthread
 	schedGoid int64
 	aborted   bool
-	queues    []col.QueueLike[int]
+	queues    []anyQueue
 	qindex    map[any]int
-	closed    []bool
+	closed    map[any]bool
 	wgCount   int
 	adopting  bool
 }
@@ -174,6 +195,9 @@ func (s *csched) hook(kind int, queue any) {
 	goid := curGoid()
 	if goid == s.schedGoid {
 		return // the scheduler itself inspecting a queue, or the set-up calling Fork/Split/Join
+	}
+	if queue != nil && strings.Contains(fmt.Sprintf("%T", queue), "TokenLike") {
+		return // the parser's token queue (its scanner goroutine runs free): not part of the schedule
 	}
 	s.mu.Lock()
 	t := s.byGoid[goid]
@@ -196,9 +220,13 @@ func (s *csched) hook(kind int, queue any) {
 	}
 	t.kind = kind
 	t.q = -1
+	t.qobj = nil
 	if queue != nil {
+		t.qobj, _ = queue.(anyQueue)
 		if qi, ok := s.qindex[queue]; ok {
 			t.q = qi
+		} else {
+			t.q = 0 // a queue under construction (constructor programs have one queue)
 		}
 	}
 	t.state = stParked
@@ -265,10 +293,9 @@ func (s *csched) quiescent(timeout time.Duration) bool {
 func (s *csched) enabledOf(t *sthread) bool {
 	switch t.kind {
 	case 2:
-		q := s.queues[t.q]
-		return s.closed[t.q] || q.GetSize() < int(q.GetCapacity())
+		return s.closed[t.qobj] || t.qobj.GetSize() < int(t.qobj.GetCapacity())
 	case 3:
-		return s.closed[t.q] || s.queues[t.q].GetSize() > 0
+		return s.closed[t.qobj] || t.qobj.GetSize() > 0
 	case 12:
 		return s.wgCount == 0
 	}
@@ -298,8 +325,9 @@ func runProgram(prog cprog, choose func(step int, enabled []int) int) crun {
 	defer func() { col.VerifHook = nil }()
 	group := &cgroup{s}
 	class := col.Queue[int](sharedNotation)
-	s.queues = make([]col.QueueLike[int], len(prog.caps))
-	s.closed = make([]bool, len(prog.caps))
+	s.queues = make([]anyQueue, len(prog.caps))
+	s.closed = map[any]bool{}
+	iq := func(i int) col.QueueLike[int] { return s.queues[i].(col.QueueLike[int]) }
 	var out crun
 	// queues that are not created by a helper constructor
 	made := make([]bool, len(prog.caps))
@@ -311,6 +339,11 @@ func runProgram(prog cprog, choose func(step int, enabled []int) int) crun {
 			}
 		case "join":
 			made[t.q] = true
+		}
+	}
+	for _, t := range prog.threads {
+		if t.kind == "ctor" {
+			made[0] = true
 		}
 	}
 	for i, c := range prog.caps {
@@ -326,9 +359,9 @@ func runProgram(prog cprog, choose func(step int, enabled []int) int) crun {
 		case "fork", "split":
 			var outs col.Sequential[col.QueueLike[int]]
 			if t.kind == "fork" {
-				outs = class.Fork(group, s.queues[t.q], uint(len(t.qs)))
+				outs = class.Fork(group, iq(t.q), uint(len(t.qs)))
 			} else {
-				outs = class.Split(group, s.queues[t.q], uint(len(t.qs)))
+				outs = class.Split(group, iq(t.q), uint(len(t.qs)))
 			}
 			arr := outs.AsArray()
 			s.mu.Lock()
@@ -341,7 +374,7 @@ func runProgram(prog cprog, choose func(step int, enabled []int) int) crun {
 		case "join":
 			ins := make([]col.QueueLike[int], len(t.qs))
 			for i, q := range t.qs {
-				ins[i] = s.queues[q]
+				ins[i] = iq(q)
 			}
 			list := col.List[col.QueueLike[int]](sharedNotation).MakeFromArray(ins)
 			o := class.Join(group, list)
@@ -404,7 +437,17 @@ func runProgram(prog cprog, choose func(step int, enabled []int) int) crun {
 				s.mu.Unlock()
 			}()
 			doCall := func(c ccall) (v int, ok bool) {
-				q := s.queues[c.q]
+				if c.op == "wait" {
+					group.Wait()
+					t.results = append(t.results, "RWaited")
+					return
+				}
+				if c.op == "done" {
+					group.Done()
+					t.results = append(t.results, "RDoneWg")
+					return
+				}
+				q := iq(c.q)
 				switch c.op {
 				case "add":
 					q.AddValue(c.v)
@@ -424,13 +467,42 @@ func runProgram(prog cprog, choose func(step int, enabled []int) int) crun {
 					t.results = append(t.results, fmt.Sprintf("REmpty %v", q.IsEmpty()))
 				case "array":
 					t.results = append(t.results, "RArray "+zList(q.AsArray()))
-				case "wait":
-					group.Wait()
-					t.results = append(t.results, "RWaited")
-				case "done":
-					group.Done()
-					t.results = append(t.results, "RDoneWg")
 				}
+				return
+			}
+			if pt.kind == "ctor" {
+				vals := make([]int, pt.n)
+				for i := range vals {
+					vals[i] = i + 1
+				}
+				var q anyQueue
+				switch pt.form {
+				case "array":
+					q = class.MakeFromArray(vals)
+				case "seq":
+					q = class.MakeFromSequence(col.List[int](sharedNotation).MakeFromArray(vals))
+				case "module":
+					q = fra.Queue[int](vals)
+				default:
+					items := make([]string, len(vals))
+					for i, v := range vals {
+						items[i] = strconv.Itoa(v)
+					}
+					src := "[" + strings.Join(items, ", ") + "](Queue)"
+					if len(vals) == 0 {
+						src = "[ ](Queue)"
+					}
+					q = sharedNotation.ParseSource(src).(anyQueue)
+				}
+				for i := 0; i < pt.n; i++ {
+					t.results = append(t.results, "RAdded")
+				}
+				s.mu.Lock()
+				s.queues[0] = q
+				s.qindex[q] = 0
+				s.mu.Unlock()
+				t.results = append(t.results, fmt.Sprintf("RSize %d", q.GetSize()))
+				t.results = append(t.results, "RArray "+zList(asInts(q)))
 				return
 			}
 			if pt.kind == "consumer" {
@@ -480,7 +552,7 @@ func runProgram(prog cprog, choose func(step int, enabled []int) int) crun {
 		t := s.threads[tid]
 		out.kinds = append(out.kinds, t.kind)
 		if t.kind == 5 {
-			s.closed[t.q] = true
+			s.closed[t.qobj] = true
 		}
 		t.state = stRunning
 		s.mu.Unlock()
@@ -497,10 +569,16 @@ func runProgram(prog cprog, choose func(step int, enabled []int) int) crun {
 	s.mu.Unlock()
 	if !out.hung {
 		for _, q := range s.queues {
-			arr := q.AsArray()
+			if q == nil { // a constructor that never returned
+				out.arrays = append(out.arrays, nil)
+				out.sizes = append(out.sizes, -1)
+				out.queues = append(out.queues, "{| qo_vals := []; qo_tok := 0; qo_cap := 0 |}")
+				continue
+			}
+			arr := asInts(q)
 			out.arrays = append(out.arrays, arr)
 			out.sizes = append(out.sizes, q.GetSize())
-			out.queues = append(out.queues, fmt.Sprintf("{| qo_vals := %s; qo_tok := %d |}", zList(arr), q.GetSize()))
+			out.queues = append(out.queues, fmt.Sprintf("{| qo_vals := %s; qo_tok := %d; qo_cap := %d |}", zList(arr), q.GetSize(), q.GetCapacity()))
 		}
 	}
 	// release everything that is still parked
@@ -525,6 +603,20 @@ func runProgram(prog cprog, choose func(step int, enabled []int) int) crun {
 	return out
 }
 
+// AsArray of a queue of ints or of `any` holding integers (a parsed Queue literal)
+func asInts(q anyQueue) []int {
+	rv := reflect.ValueOf(q).MethodByName("AsArray").Call(nil)[0]
+	out := make([]int, rv.Len())
+	for i := range out {
+		e := rv.Index(i)
+		if e.Kind() == reflect.Interface {
+			e = e.Elem()
+		}
+		out[i] = int(e.Int())
+	}
+	return out
+}
+
 func zList(xs []int) string {
 	s := make([]string, len(xs))
 	for i, x := range xs {
@@ -540,6 +632,11 @@ func checkRun(prog cprog, run crun) []string {
 	var bad []string
 	if run.hung {
 		return []string{"a granted step did not reach its next scheduling point within 10s (blocked inside the runtime)"}
+	}
+	for _, t := range prog.threads {
+		if t.kind == "ctor" && !run.final {
+			return []string{fmt.Sprintf("the Queue constructor (form %s) with %d initial values did not return: it is blocked on its own capacity", t.form, t.n)}
+		}
 	}
 	hasRemoveAll := false
 	added := map[int]bool{}     // values whose append step ran
@@ -858,8 +955,12 @@ func (c concCase) gallina() string {
 	if c.run.final {
 		fin = "true"
 	}
+	caps := natList(c.prog.caps)
+	if c.prog.capExpr != nil {
+		caps = "[" + strings.Join(c.prog.capExpr, "; ") + "]"
+	}
 	return fmt.Sprintf("{| k_caps := %s; k_wg := %d; k_threads := [%s];\n   k_sched := %s;\n   k_enabled := [%s];\n   k_results := [%s];\n   k_queues := [%s]; k_final := %s; k_hung := %s |}",
-		natList(c.prog.caps), c.prog.wg, strings.Join(ths, "; "), natList(c.run.sched), strings.Join(en, "; "), strings.Join(res, "; "), strings.Join(qs, "; "), fin, hung)
+		caps, c.prog.wg, strings.Join(ths, "; "), natList(c.run.sched), strings.Join(en, "; "), strings.Join(res, "; "), strings.Join(qs, "; "), fin, hung)
 }
 
 func (c concCase) human() []string {
@@ -955,7 +1056,21 @@ func genConc(prop string, seed uint64, tier, outDir string, count int) error {
 		case "C04":
 			prog = genPC(r, i%4 == 3)
 		case "C05":
-			prog = genPC(r, i%2 == 1)
+			if i%5 == 4 {
+				// constructors from N initial values, N across 0 .. 4*capacity
+				n := []int{0, 1, 2, 15, 16, 17, 18, 31, 32, 33, 48, 63, 64, 65}[r.intn(14)]
+				if r.chance(1, 3) {
+					n = r.intn(66)
+				}
+				form := []string{"array", "seq", "module", "parse"}[r.intn(4)]
+				if form == "module" && n == 0 {
+					form = "array" // the module-level form with no data is C20's matter
+				}
+				prog = cprog{family: "ctor", caps: []int{0}, capExpr: []string{fmt.Sprintf("Z.to_nat (Z.max Params.queue_default_capacity %d)", n)}}
+				prog.threads = []cthread{{kind: "ctor", form: form, n: n}}
+			} else {
+				prog = genPC(r, i%2 == 1)
+			}
 		case "C06":
 			shape = i % 3
 			length = r.intn(7)
